@@ -204,8 +204,12 @@ def build_cnative(info):
     exe = os.path.join(info['dir'], 'cnative')
     if os.path.exists(exe) and os.path.getmtime(exe) >= os.path.getmtime(info['c']):
         return exe
-    r = sh(['gcc', '-O0', '-w', '-DVF_NATIVE', '-ffp-contract=off', '-fno-strict-aliasing', '-fwrapv', '-DVF_CNATIVE', info['c'], os.path.join(VF, 'rt_native.c'),
-            '-o', exe, '-rdynamic', '-ldl', '-lm'])
+    obj = os.path.join(info['dir'], 'h.o'); rto = os.path.join(info['dir'], 'rt.o')
+    r = sh(['gcc', '-O0', '-w', '-DVF_NATIVE', '-ffp-contract=off', '-fno-strict-aliasing', '-fwrapv', '-c', info['c'], '-o', obj])
+    if r.returncode == 0:
+        r = sh(['gcc', '-O0', '-w', '-c', os.path.join(VF, 'rt_native.c'), '-o', rto])
+    if r.returncode == 0:
+        r = sh(['g++', obj, rto, '-o', exe, '-rdynamic', '-ldl', '-lm'])   # libstdc++ supplies the runtime symbols the IR references
     if r.returncode != 0:
         raise BuildError('cnative build failed:\n' + r.stdout[-3000:])
     return exe
